@@ -7,6 +7,8 @@ from redun.backends.db import RedunBackendDb, RedunDatabaseError, Value
 from redun.value import FileCache, get_type_registry
 
 root = tempfile.mkdtemp(prefix="c31_")
+import atexit as _atexit, shutil as _shutil
+_atexit.register(lambda: _shutil.rmtree(root, ignore_errors=True))     # nothing is left under /tmp
 n = 0
 w = None
 samples = []
